@@ -358,3 +358,8 @@ def describe(plan):
             "ops": [{k: (v if k != "msg" else "<message json>") for k, v in op.items()} for op in plan.get("ops", [])][:8],
             "callbacks": {k: {"raise": (c or {}).get("raise", [])[:8], "delays": len((c or {}).get("delay", {}))}
                           for k, c in (plan.get("cb") or {}).items()}}
+
+
+def seam_check():
+    from .common import seam_net, seam_clock, seam_fs
+    return seam_net()
